@@ -322,6 +322,7 @@ def case_topo(c, out):
       offenders = sorted(d for d in connected
                          if any((((d, p) in nf) != ((d, p) in lp and (d, p) not in tports)) for p in ports[d]))
       on_tree = any(deg[d] for d in offenders)
+      st_["offenders"] = offenders
       state = "NO_FLOOD %r, adjacency %r" % (sorted(nf), sorted(got))
       for d in sorted(connected):
         bad = [p for p in ports[d] if (d, p) not in lp and (d, p) in nf]
@@ -378,6 +379,8 @@ def case_topo(c, out):
       fs = flood_state(got, want, tree) if st_["flood_reports"] < 3 else []
       if fs:
         st_["flood_reports"] += 1
+        offs = st_["offenders"]
+        reconn = bool(offs) and all(d in st_.get("reconnected", ()) for d in offs)
         # diagnosis for the root-cause key: does a recomputation on this (correct) adjacency repair it?
         try:
           ST._update_tree()
@@ -392,7 +395,7 @@ def case_topo(c, out):
           out.fail(clause, msg + "; removal events raised while the link was still in adjacency: %d; after a forced "
                    "_update_tree(): %s" % (stale[0], "repaired" if not again else "still wrong"),
                    removal_event_sees_link=bool(stale[0]), after_forced_update="fixed" if not again else "persists",
-                   offender_on_tree=on_tree)
+                   offender_on_tree=on_tree, offender_reconnected=reconn)
       st_["tree_before"] = set()
       for d, es in tree.items():
         for (w2, p) in es:
@@ -406,9 +409,11 @@ def case_topo(c, out):
       if o == "connect":
         d = dpids[op["s"] % n]
         if d not in connected:
-          if d in st_.setdefault("was_connected", set()) and not st_.get("reconnect"):
-            st_["reconnect"] = True
-            out.label("history:reconnect")
+          if d in st_.setdefault("was_connected", set()):
+            st_.setdefault("reconnected", set()).add(d)
+            if not st_.get("reconnect"):
+              st_["reconnect"] = True
+              out.label("history:reconnect")
           st_["was_connected"].add(d)
           connected.add(d)
           sync_dead()
